@@ -2,17 +2,18 @@
 """Keeps screened harmless rewrites under /verif/harmless/<name>/ (patch.diff, note.txt, meta.json) and writes
 /verif/harmless/RESULTS.md from <out>/RESULTS.json (produced by tools/screen_harmless.py).
 
-    python3 tools/keep_harmless.py /tmp/harmless_out
+    python3 tools/keep_harmless.py /tmp/harmless_out /tmp/harmless_out2
 """
 import json, os, shutil, sys
 
-OUT = sys.argv[1]
-res = json.load(open(os.path.join(OUT, "RESULTS.json")))
 dst = "/verif/harmless"
 os.makedirs(dst, exist_ok=True)
 rows = []
-for name in sorted(res):
-    r = res[name]
+allres = []
+for OUT in sys.argv[1:]:
+    res = json.load(open(os.path.join(OUT, "RESULTS.json")))
+    allres += [(OUT, name, res[name]) for name in sorted(res)]
+for OUT, name, r in allres:
     if name.startswith("H0/") or not r.get("applies"):
         continue
     agent, fn = name.split("/")
@@ -26,7 +27,13 @@ for name in sorted(res):
     first = (open(note).read().strip().split("\n")[0] if os.path.exists(note) else "")[:160]
     meta = {"kind": "behaviour-preserving rewrite (must not raise an alarm)", "existing_tests": r.get("tests"),
             "alarms": r.get("alarms", {}), "checks_run": sorted(r.get("wall_s", {}))}
-    json.dump(meta, open(os.path.join(d, "meta.json"), "w"), indent=1)
+    mp = os.path.join(d, "meta.json")
+    if os.path.exists(mp):                       # keep what was recorded by hand about the first screening
+        old = json.load(open(mp))
+        for key in ("first_screening_alarm_of_the_machinery", "machinery_corrected"):
+            if key in old:
+                meta[key] = old[key]
+    json.dump(meta, open(mp, "w"), indent=1)
     al = r.get("alarms", {})
     rows.append((f"{agent}-{k}", first, "none" if not al else "; ".join(f"{c}: {(v.get('line') or 'exit %s' % v.get('exit'))[-60:]}" for c, v in al.items())))
 with open(os.path.join(dst, "RESULTS.md"), "w") as f:
